@@ -129,6 +129,10 @@ type c18Life struct {
 	// Start (complete stop and restart included). Restart semantics are outside the statement, so in this mode only the
 	// safety clauses are judged: no panic, no deadlock, no error from a matched Start/Shutdown, no checker left at the end.
 	NoHold bool `json:"no_hold,omitempty"`
+	// Refusing: every memory reading is above the hard limit (collections do not help) and the first check has run before
+	// the users start: whatever users start or stop afterwards, the limiter stays in refusing mode - "refusing iff the MOST
+	// RECENT MEASUREMENT is at or above the soft limit", a Start or Shutdown is not a measurement
+	Refusing bool `json:"refusing,omitempty"`
 }
 
 type c18LifeObs struct {
@@ -144,7 +148,13 @@ type c18LifeObs struct {
 func c18LifeBody(sc *c18Life, o *c18LifeObs) func() {
 	return func() {
 		*o = c18LifeObs{}
-		ReadMemStatsFn = func(m *runtime.MemStats) { o.checks++; m.Alloc = 1 }
+		ReadMemStatsFn = func(m *runtime.MemStats) {
+			o.checks++
+			m.Alloc = 1
+			if sc.Refusing {
+				m.Alloc = 200 * c18MiB
+			}
+		}
 		ml, err := NewMemoryLimiter(&Config{CheckInterval: time.Second, MemoryLimitMiB: 100, MemorySpikeLimitMiB: 20}, zap.NewNop())
 		if err != nil {
 			panic(err)
@@ -160,6 +170,18 @@ func c18LifeBody(sc *c18Life, o *c18LifeObs) func() {
 			}
 			o.started++
 		}
+		if sc.Refusing {
+			vs.Sleep(1500 * time.Millisecond) // one tick ...
+			vs.AwaitQuiescence(nil)           // ... and the check it triggered has completed: the limiter is in refusing mode
+			if !ml.MustRefuse() {
+				o.violations = append(o.violations, "not refusing after a check that read 200 MiB with limit 100 MiB")
+			}
+		}
+		stillRefusing := func(after string) {
+			if sc.Refusing && !ml.MustRefuse() {
+				o.violations = append(o.violations, "refusing mode left without a measurement: MustRefuse() is false right after "+after+" although every reading is above the limit")
+			}
+		}
 		var wg vs.WaitGroup
 		for ui, seq := range sc.Users {
 			seq := seq
@@ -174,6 +196,7 @@ func c18LifeBody(sc *c18Life, o *c18LifeObs) func() {
 						}
 						mine++
 						o.started++
+						stillRefusing("a user's Start")
 					} else {
 						err := ml.Shutdown(context.Background())
 						if mine == 0 {
@@ -353,6 +376,7 @@ func TestVerif(t *testing.T) {
 		{Users: [][]string{{"start"}, {"start", "stop"}, {"start", "stop"}}},
 		{Users: [][]string{{"stop", "start", "stop"}}},
 		{Users: [][]string{{"start", "stop"}, {"start", "stop"}}, NoHold: true},
+		{Users: [][]string{{"start", "stop"}, {"start"}}, Refusing: true},
 		{Users: [][]string{{"start", "stop"}, {"start", "stop"}, {"start", "stop"}}, NoHold: true},
 	}
 	bound := ctx.Param("bound", 2)
